@@ -38,8 +38,12 @@ RULE = ("cases are (Hermitian MPO description, DMRG configuration) pairs; Hamilt
 ASSUMPTIONS = [
     "numpy.linalg.eigh of ham.to_dense() is the trusted spectrum; to_dense() is cross-checked per case against sum of embedded terms",
     "a DMRG2 sweep is 'untruncated' iff cutoff == 0.0 and cap >= d**(L//2); every DMRG1 update is untruncated (QR only)",
-    "clause (5) is only asserted with a generic random initial state (a symmetric start may legitimately stay in its sector)",
+    "clause (5) is only asserted where exactness is provable: every sweep has cap >= d^(L/2), two-site runs use cutoff 0.0 and a generic "
+    "full-bond start (complete block bases), the inner tolerance is <= 1e-10; the full claim (energy + ground space) needs every local solve "
+    "to be numpy.linalg.eigh (d^L < 45); with Lanczos local solves only 'converged => eigenstate of H' is asserted, a run that Lanczos keeps "
+    "inside an invariant subspace (product operators, classical models) is classified trapped, not failed",
     "ground-space overlap is only asserted when the gap above the ground space is >= 1e-3 * ||H||",
+    "ArpackNoConvergence out of solve() is a rejection only when the case tightened local_eig_tol below 1e-6 (scipy's documented refusal)",
     "requested cap: last executed sweep's bond dimension for bsz=2 (every bond is re-split each sweep); running maximum of the "
     "schedule (and of p0) for bsz=1, which never truncates",
 ]
@@ -356,6 +360,9 @@ def execute(case, stage_hook=None):
     csched = Schedule(cfg["cutoffs"] if cfg.get("cutoffs") is not None else cut_default)
     r.caps, r.cuts, r.dirs, r.first = [], [], [], []
     r.p0_bond = int(p0.max_bond()) if p0 is not None else int(as_seq(bd0)[0])
+    r.mpo_real_any = any(not np.iscomplexobj(t.data) for t in ham)
+    r.p0_complex = bool(p0 is not None and any(np.iscomplexobj(t.data) for t in p0))
+    r.dense_opt = (cfg.get("opts") or {}).get("local_eig_ham_dense")
     r.stage_ends = []
     r.converged = None
     for si, stg in enumerate(cfg["stages"]):
@@ -379,6 +386,9 @@ def execute(case, stage_hook=None):
             seq = skw.get("sweep_sequence") or dm.opts["default_sweep_sequence"]
             planned = [seq[k % len(seq)] for k in range(skw["max_sweeps"])]
             alt = bool(r.bsz == 1 and any(a != b for a, b in zip(planned, planned[1:])))
+            if not alt and r.local_eig_tol < 1e-6:
+                # scipy's documented refusal when the caller asks Lanczos (ncv=4) for more accuracy than it reaches in 10*N restarts
+                raise Reject("ArpackNoConvergence at a user-tightened local_eig_tol")
             raise Violation("local-eigensolve-failed", bsz=r.bsz, alt_expand_planned=alt, which=r.which, msg=str(e)[:80])
         n1 = len(dm.energies)
         if not (1 <= n1 - n0 <= skw["max_sweeps"]):
@@ -407,7 +417,8 @@ def measure(r):
         raise Violation("state-shape", got=int(pd.size), want=int(Hd.shape[0]))
     n2 = float(np.vdot(pd, pd).real)
     if not (n2 > 1e-12 and np.isfinite(n2)):
-        raise Violation("state-norm", norm2=n2)
+        raise Violation("state-norm", norm2=n2, bsz=r.bsz, compress=str(dm.opts.get("bond_compress_method")),
+                        zero_cutoff=bool(r.cuts and min(r.cuts) == 0.0))
     Hp = Hd @ pd
     r.psi, r.pd, r.n2 = psi, pd, n2
     r.e_unnorm = float(np.vdot(pd, Hp).real)
@@ -447,6 +458,23 @@ def alt_after_expand(r, k):
     """Sweep k of a one-site run starts from bond-expanded (noise padded) tensors WITHOUT re-canonisation: solve() skips
     the canonisation when the direction alternates within one call, although expand_bond_dimension has just been applied."""
     return bool(r.bsz == 1 and not r.first[k] and r.dirs[k] != r.dirs[k - 1])
+
+
+def linop_possible(r):
+    """Can a local effective Hamiltonian be handed to the eigensolver as a TNLinearOperator (rather than a dense matrix)?
+    DMRG.form_local_ops: dense iff opts['local_eig_ham_dense'] (default: prod(dims) < 800)."""
+    if r.dense_opt is True:
+        return False
+    if r.dense_opt is False:
+        return True
+    return max(r.caps + [r.p0_bond]) ** 2 * r.d ** r.bsz >= 800
+
+
+def linop_mixed(r):
+    """The effective-Hamiltonian LinearOperator can contain real AND complex tensors (a real MPO site tensor next to complex
+    environments): TNLinearOperator then declares the dtype of its first tensor (known defect C10-d)."""
+    state_complex = r.p0_complex or any(np.iscomplexobj(t.data) for t in r.psi)
+    return bool(linop_possible(r) and r.mpo_real_any and (r.complex_ham or state_complex))
 
 
 def untruncated_sweep(r, k):
@@ -508,7 +536,8 @@ def s_one_terms(draw, flavor):
 @st.composite
 def s_ham(draw, tier, Lmax=6, pc=50, shift=False, Lmin=3, Lmax3=5):
     """Hamiltonian description; genuinely complex (by construction) with probability pc %."""
-    want = "complex" if draw(st.integers(0, 99)) < pc else "real"
+    nc = int(round(pc / 10.0))  # (st.integers is not uniform: weights via an explicit list)
+    want = draw(st.sampled_from(["complex"] * nc + ["real"] * (10 - nc)))
     flavor = draw(st.sampled_from(REAL_FLAVORS if want == "real" else CPLX_FLAVORS))
     S2 = draw(st.sampled_from([1, 1, 1, 2]))
     d = S2 + 1
@@ -558,6 +587,11 @@ def s_ham(draw, tier, Lmax=6, pc=50, shift=False, Lmin=3, Lmax3=5):
 SWEEPSEQ = [None, None, "R", "L", "RL", "LR", "RRL", "LLR"]
 
 
+def one_in(draw, n):
+    """True with probability 1/n (st.integers is deliberately non-uniform, an explicit list is not)."""
+    return draw(st.sampled_from([True] + [False] * (n - 1)))
+
+
 @st.composite
 def s_p0(draw, d, L, max_bond, generic=False):
     kinds = ["none", "rand", "rand"] if generic else ["none", "rand", "rand", "comp"]
@@ -584,13 +618,13 @@ def s_dmrg_generic(draw, tier, hd, bsz=None, coarse=True):
     caps = [c for c in [2, 3, 4, 6, 8, 12, 16, 27] if c <= max(full, 2)]
     form = draw(st.sampled_from(["int", "int", "inc", "any"]))
     if form == "int":
-        bond_dims = draw(st.sampled_from(caps + ([1] if coarse and draw(st.integers(0, 3)) == 0 else [])))
+        bond_dims = draw(st.sampled_from(caps + ([1] if coarse and one_in(draw, 4) else [])))
     elif form == "inc" or bsz == 1:
         bond_dims = sorted(draw(st.lists(st.sampled_from(caps), min_size=1, max_size=3)))
     else:
         bond_dims = draw(st.lists(st.sampled_from(caps), min_size=1, max_size=3))
-    cut_pool = [0.0, 1e-14, 1e-12, 1e-9, 1e-9] + ([1e-3, 1e-2] if coarse and draw(st.integers(0, 2)) == 0 else [])
-    if draw(st.integers(0, 3)) == 0:
+    cut_pool = [0.0, 1e-14, 1e-12, 1e-9, 1e-9] + ([1e-3, 1e-2] if coarse and one_in(draw, 3) else [])
+    if one_in(draw, 4):
         cutoffs = draw(st.lists(st.sampled_from(cut_pool), min_size=1, max_size=3))
     else:
         cutoffs = draw(st.sampled_from(cut_pool))
@@ -607,16 +641,25 @@ def s_dmrg_generic(draw, tier, hd, bsz=None, coarse=True):
         if s > 0 and draw(st.booleans()):
             hi = [c for c in caps if bsz == 2 or c >= max(as_seq(bond_dims))] or [max(as_seq(bond_dims))]
             stg["bond_dims"] = draw(st.sampled_from(hi))
-        if s > 0 and draw(st.integers(0, 2)) == 0:
+        if s > 0 and one_in(draw, 3):
             stg["cutoffs"] = draw(st.sampled_from(cut_pool))
         stages.append(stg)
     opts = draw(st.sampled_from([{}, {}, {}, {"local_eig_ham_dense": True}, {"local_eig_tol": 1e-8},
                                  {"bond_compress_method": "eig"}, {"default_sweep_sequence": "RL"}]))
+    if opts.get("bond_compress_method") == "eig":
+        # svd-via-eig with cutoff exactly 0.0 returns a non-isometric 'isometric' factor for a rank deficient two-site
+        # solution (open finding C05-g of the decomposition property); DMRG then sweeps on with a singular environment
+        # (finding C10-e, reproducer kept in known/C10.txt).  That class is left to C05: no exact-zero cutoff with 'eig'.
+        nz = lambda c: 1e-14 if c == 0.0 else c  # noqa: E731
+        cutoffs = [nz(c) for c in cutoffs] if isinstance(cutoffs, list) else nz(cutoffs)
+        for stg in stages:
+            if stg.get("cutoffs") is not None:
+                stg["cutoffs"] = nz(stg["cutoffs"])
     cfg = {"bsz": bsz, "ctor": ctor, "which": draw(st.sampled_from(["SA", "SA", "SA", "LA"])), "bond_dims": bond_dims,
            "cutoffs": cutoffs, "p0": p0, "seed": draw(A.seeds), "stages": stages, "opts": opts}
-    if ctor != "DMRG" and draw(st.integers(0, 4)) == 0 and bsz == 2:
+    if ctor != "DMRG" and one_in(draw, 5) and bsz == 2:
         cfg["bond_dims"] = None  # the alias' documented default schedule
-    if draw(st.integers(0, 4)) == 0:
+    if one_in(draw, 5):
         cfg["cutoffs"] = None
     return cfg
 
@@ -641,7 +684,7 @@ def s_ham_reference(tier):
     @st.composite
     def s(draw):
         hd = draw(s_ham(tier, Lmax=6))
-        if hd["kind"] in ("spin", "named") and draw(st.integers(0, 3)) == 0 and hd["L"] >= 3:
+        if hd["kind"] in ("spin", "named") and one_in(draw, 4) and hd["L"] >= 3:
             hd = dict(hd, cyclic=True, var_two=[]) if hd["kind"] == "spin" else dict(hd, cyclic=True)
         return {"ham": hd}
 
@@ -785,7 +828,7 @@ def s_dmrg_monotone(draw, tier, hd):
 def s_case_monotone(tier):
     @st.composite
     def s(draw):
-        hd = draw(s_ham(tier, Lmax=6 if tier == "quick" else 7))
+        hd = draw(s_ham(tier, Lmax=6 if tier == "quick" else 7, shift=one_in(draw, 4)))
         return {"ham": hd, "dmrg": draw(s_dmrg_monotone(tier, hd))}
 
     return s()
@@ -816,12 +859,14 @@ def run_monotone(case):
             nsteps += 1
             if inc > tol:
                 raise Violation("energy-increased", inc=inc, tol=tol, bsz=r.bsz, which=r.which, sweep=k, iterative=bool(forced_iter or big),
-                                alt_after_expand=alt_after_expand(r, k))
+                                alt_after_expand=alt_after_expand(r, k), linop_mixed=linop_mixed(r))
         prev = tots[-1]
     if nsteps == 0:
         raise Reject("no untruncated update pair")
-    return {"nt": nontrivial(r), "err": max(worst, 0.0),
-            "cls": base_classes(r, case) + ["iterative" if (forced_iter or big) else "dense-solve"]}
+    # reported error is scaled to the exact-solve tolerance so that one number measures the margin of both classes
+    return {"nt": nontrivial(r), "err": max(worst, 0.0) * (TOL_MONO / tol),
+            "cls": base_classes(r, case) + ["iterative" if (forced_iter or big) else "dense-solve"] +
+                   (["linop"] if linop_possible(r) else []) + (["linop-mixed-dtype"] if linop_mixed(r) else [])}
 
 
 # ---------------------------------------------------------------------------
@@ -830,21 +875,33 @@ def run_monotone(case):
 
 @st.composite
 def s_dmrg_exact(draw, tier, hd):
+    """Configurations for which exactness is PROVABLE rather than hoped for: every sweep has cap >= d^(L/2); two-site
+    runs use cutoff exactly 0.0 and start from a generic state that already has full bonds (so the block bases are
+    complete unitaries from the first sweep on and the central local problem is the full Hamiltonian in a rotated basis);
+    one-site runs pad the bonds to the cap with noise before every sweep (same effect) and do not alternate directions
+    inside a solve() call (known defect C10-c).  The inner solver is made accurate."""
     L = hd["L"]
     d = hd.get("d") or hd["S2"] + 1
     bsz = draw(st.sampled_from([1, 2]))
     full = d ** (L // 2)
-    bond_dims = draw(st.sampled_from([full, full, full + 2, [max(2, full // 2), full]]))
-    cutoffs = draw(st.sampled_from([0.0, 1e-14, 1e-12, [1e-6, 1e-12]]))
-    p0 = draw(s_p0(d, L, min(as_seq(bond_dims)[0], 8), generic=True))
+    bond_dims = draw(st.sampled_from([full, full, full + 2, [full, full + 1]]))
+    if bsz == 2:
+        cutoffs = draw(st.sampled_from([0.0, 0.0, [0.0, 0.0]]))
+        p0 = draw(st.one_of(st.none(), st.fixed_dictionaries(
+            {"kind": st.just("rand"), "seed": A.seeds, "bond": st.just(full), "dtype": st.sampled_from(["float64", "complex128"])})))
+        seqs = SWEEPSEQ
+    else:
+        cutoffs = draw(st.sampled_from([0.0, 1e-12, 1e-9, [1e-6, 1e-12]]))
+        p0 = draw(s_p0(d, L, min(full, 8), generic=True))
+        seqs = [None, None, "R", "L"]
     stages = [{"max_sweeps": 8 if tier == "quick" else 10, "tol_rel": draw(st.sampled_from([1e-9, 1e-10])),
-               "sweep_sequence": draw(st.sampled_from(SWEEPSEQ))}]
-    if draw(st.integers(0, 3)) == 0:
+               "sweep_sequence": draw(st.sampled_from(seqs))}]
+    if one_in(draw, 4):
         stages = [{"max_sweeps": 2, "tol_rel": 1e-4, "sweep_sequence": None}] + stages
     return {"bsz": bsz, "ctor": draw(st.sampled_from(["DMRG", "DMRG%d" % bsz])), "which": draw(st.sampled_from(["SA", "SA", "LA"])),
             "bond_dims": bond_dims, "cutoffs": cutoffs, "p0": p0, "seed": draw(A.seeds), "stages": stages,
-            # the inner solve is made accurate: 'converged' (energy change between sweeps) says nothing about the distance
-            # from the optimum when every local solve stops at the default relative tolerance 1e-3
+            # 'converged' (energy change between sweeps) says nothing about the distance from the optimum when every local
+            # solve stops at the default relative tolerance 1e-3
             "opts": draw(st.sampled_from([{"local_eig_tol": 1e-10}, {"local_eig_tol": 1e-12},
                                           {"local_eig_tol": 1e-10, "local_eig_ham_dense": True}]))}
 
@@ -852,7 +909,11 @@ def s_dmrg_exact(draw, tier, hd):
 def s_case_exact(tier):
     @st.composite
     def s(draw):
-        hd = draw(s_ham(tier, Lmax=6 if tier == "quick" else 7, pc=35, Lmax3=4))
+        # half the cases are small enough (d^L < 45) for the library to solve every local problem with numpy.linalg.eigh
+        if draw(st.booleans()):
+            hd = draw(s_ham(tier, Lmax=5, pc=30, Lmax3=3))
+        else:
+            hd = draw(s_ham(tier, Lmax=6 if tier == "quick" else 7, pc=30, Lmax3=4, Lmin=4))
         return {"ham": hd, "dmrg": draw(s_dmrg_exact(tier, hd))}
 
     return s()
@@ -861,19 +922,37 @@ def s_case_exact(tier):
 def run_exact(case):
     r = execute(case)
     cls = base_classes(r, case)
+    full = r.d ** (r.L // 2)
+    if min(r.caps) < full or (r.bsz == 2 and max(r.cuts) != 0.0):
+        raise Reject("not a provably exact configuration")
     if not r.converged:
         return {"nt": False, "err": 0.0, "cls": cls + ["skipped:not-converged"]}
-    if r.caps[-1] < r.d ** (r.L // 2):
-        raise Reject("cap below d**(L//2)")
     ev = r.evals
+    s = r.scale
     target = ev[0] if r.which == "SA" else ev[-1]
-    err_e = abs(r.E - target) / r.scale
+    err_e = abs(r.E - target) / s
+    # every local problem has dimension <= d^L: below 45 the library's backend choice is the exact numpy.linalg.eigh
+    # (base_linalg.choose_backend), so the central step returns the global optimum whatever the starting vector
+    exact_solver = r.d ** r.L < 45 and r.dense_opt is not False
+    cls.append("local-solve=eigh" if exact_solver else "local-solve=lanczos")
+    nrm = math.sqrt(r.n2)
+    resid = float(np.linalg.norm(r.Hd @ r.pd - r.e_norm * r.pd)) / (nrm * s)
+    if not exact_solver:
+        # Lanczos started from the current state cannot leave an invariant subspace of H (product operators, classical
+        # models, symmetry sectors): a converged run is then an eigenstate, not necessarily the extremal one
+        if not resid <= TOL_EXACT:
+            pc = r.pd.conj()
+            resid_c = float(np.linalg.norm(r.Hd @ pc - r.e_conj_norm * pc)) / (nrm * s)
+            raise Violation("not-eigenstate", resid=resid, bsz=r.bsz, which=r.which, complex_ham=r.complex_ham,
+                            conj_fits=bool(resid_c <= TOL_EXACT))
+        if not err_e <= TOL_EXACT:
+            return {"nt": False, "err": resid, "cls": cls + ["trapped-in-excited-eigenstate"]}
     if not err_e <= TOL_EXACT:
         raise Violation("exact-energy", err=err_e, bsz=r.bsz, which=r.which, complex_ham=r.complex_ham)
-    width = 1e-8 * r.scale
+    width = 1e-8 * s
     inside = np.abs(ev - target) <= width
     rest = ev[~inside]
-    gap = float(np.min(np.abs(rest - target))) / r.scale if rest.size else float("inf")
+    gap = float(np.min(np.abs(rest - target))) / s if rest.size else float("inf")
     deg = int(inside.sum())
     cls.append("deg=%d" % min(deg, 4))
     if gap < 1e-3:
@@ -884,7 +963,7 @@ def run_exact(case):
         ovc = float(np.linalg.norm(V.conj().T @ r.pd.conj()) ** 2 / r.n2)
         raise Violation("ground-overlap", overlap=ov, bsz=r.bsz, which=r.which, complex_ham=r.complex_ham,
                         conj_fits=bool(ovc >= 1 - TOL_EXACT), deg=deg)
-    return {"nt": nontrivial(r), "err": max(err_e, 1 - ov), "cls": cls}
+    return {"nt": nontrivial(r), "err": max(err_e, 1 - ov, resid if not exact_solver else 0.0), "cls": cls}
 
 
 # ---------------------------------------------------------------------------
@@ -948,20 +1027,22 @@ SUBCHECKS = [
     SubCheck("ham_reference", run_ham_reference, s_ham_reference, examples=(150, 1500), shards=(1, 2),
              rule="ham.to_dense() == sum of embedded terms from own spin matrices (open + cyclic, overrides replace defaults); "
                   "nt: L>=4 and (complex or site-dependent)"),
-    SubCheck("energy_state_dmrg2", run_energy_state, _q(s_case_generic, bsz=2, pc=30), examples=(36, 110), shards=(2, 3),
+    SubCheck("energy_state_dmrg2", run_energy_state, _q(s_case_generic, bsz=2, pc=30), examples=(36, 250), shards=(2, 4),
              rule="two-site DMRG: after every solve() stage energy == <psi|H|psi>/<psi|psi> (dense) == psi.H@ham.apply(psi) within 1e-6||H||; "
                   "half the Hamiltonians genuinely complex; nt as RULE"),
-    SubCheck("energy_state_dmrg1", run_energy_state, _q(s_case_generic, bsz=1, pc=35), examples=(36, 110), shards=(2, 3),
+    SubCheck("energy_state_dmrg1", run_energy_state, _q(s_case_generic, bsz=1, pc=30), examples=(36, 250), shards=(2, 4),
              rule="one-site DMRG: same clause; nt as RULE"),
-    SubCheck("bounds_and_cap", run_bounds, _q(s_case_generic, shift=True), examples=(36, 110), shards=(2, 3),
+    SubCheck("bounds_and_cap", run_bounds, _q(s_case_generic, shift=True), examples=(36, 250), shards=(2, 4),
              rule="lambda_min-1e-8 <= every reported energy <= lambda_max+1e-8 (energy, energies, total_energies) and max_bond <= cap "
                   "after every stage; spectra shifted off zero so that an unnormalised <H> is visible; nt as RULE"),
-    SubCheck("monotone", run_monotone, s_case_monotone, examples=(36, 110), shards=(2, 3),
+    SubCheck("monotone", run_monotone, s_case_monotone, examples=(36, 250), shards=(2, 4),
              rule="total_energies never go up (down for LA) across untruncated updates (DMRG1 always; DMRG2 with cutoff 0.0 and cap >= d^(L/2)) "
                   "beyond 1e-9||H|| (dense local solve) / local_eig_tol (iterative); nt as RULE"),
-    SubCheck("exact_limit", run_exact, s_case_exact, examples=(36, 110), shards=(2, 3),
-             rule="cap >= d^(L/2), tiny cutoff, generic start, converged at 1e-9: |E-lambda|<=1e-6||H|| and ground-space weight >= 1-1e-6 "
-                  "(when the gap above the ground space >= 1e-3||H||); nt as RULE and converged"),
-    SubCheck("periodic", run_periodic, s_case_periodic, examples=(10, 40), shards=(2, 2),
+    SubCheck("exact_limit", run_exact, s_case_exact, examples=(36, 250), shards=(2, 4),
+             rule="provably exact configurations (cap >= d^(L/2) in every sweep, cutoff 0.0 + full-bond generic start for two-site, noise-padded "
+                  "bonds for one-site, inner tol <= 1e-10), converged at 1e-9: d^L < 45 (all local solves numpy.eigh): |E-lambda|<=1e-6||H|| and "
+                  "ground-space weight >= 1-1e-6 (gap above the ground space >= 1e-3||H||); larger (Lanczos): ||H psi - E psi|| <= 1e-6||H||, and "
+                  "the full claim unless trapped in an excited eigenstate; nt as RULE and converged and not trapped"),
+    SubCheck("periodic", run_periodic, s_case_periodic, examples=(10, 50), shards=(2, 3),
              rule="cyclic Heisenberg-like chains L 4-6: energy == normalised <psi|H|psi> within 1e-3||H||; nt: all"),
 ]
